@@ -454,7 +454,7 @@ func opClass(name string) string {
 
 func valueHistoriesCorpus(r *core.Run, ops []vop, nAlpha, obs, gapc int, prog string) {
 	var jobs []freeJob
-	for _, j := range freeJobs(r.Repo, int64(core.Pick(r, 16<<10, 64<<10))) {
+	for _, j := range freeJobs(r.Repo, int64(core.Pick(r, 4<<10, 64<<10))) {
 		if j.Format != "probe" {
 			jobs = append(jobs, j)
 		}
